@@ -102,7 +102,7 @@ static void c17_roundtrip(const C17Trees &t, QXmppMessage &r)
 
 #define FIELD(name, part, nel, tag, ns)                                                  \
     static void set_##name(QXmppMessage &m);                                             \
-    static void chk_##name(const QXmppMessage &m, const QXmppMessage &r);                \
+    static void chk_##name(const QXmppMessage &m, const QXmppMessage &r, bool alone);    \
     extern "C" void h_f_##name()                                                         \
     {                                                                                    \
         QXmppMessage m;                                                                  \
@@ -113,21 +113,21 @@ static void c17_roundtrip(const C17Trees &t, QXmppMessage &r)
         c17_place(t, part, nel, tag, ns);                                                \
         QXmppMessage r;                                                                  \
         c17_roundtrip(t, r);                                                             \
-        chk_##name(m, r);                                                                \
+        chk_##name(m, r, true);                                                          \
         if (part != PUBONLY) {                                                           \
             QXmppMessage r2;                                                             \
             r2.parse(t.all, QXmpp::SceAll);                                              \
-            chk_##name(m, r2);                                                           \
+            chk_##name(m, r2, true);                                                     \
         }                                                                                \
     }
 #define SET(name) static void set_##name(QXmppMessage &m)
-#define CHK(name) static void chk_##name(const QXmppMessage &m, const QXmppMessage &r)
+#define CHK(name) static void chk_##name(const QXmppMessage &m, const QXmppMessage &r, bool alone)
 #define S1 c17Str(1)
 
 // ================= whitelisted (public) fields: DESIGN C17 whitelist = fallback body, private, hints, stanza-id, origin-id, mix, EME, fallback markers =================
 FIELD(e2ee_fallback_body, PUBONLY, 1, u"body", u"")
 SET(e2ee_fallback_body) { m.setE2eeFallbackBody(S1); }
-CHK(e2ee_fallback_body) { vp_assert(r.e2eeFallbackBody() == m.e2eeFallbackBody() && r.body().isEmpty(), "C17 (iii) e2eeFallbackBody restored from the public part, body stays empty"); }
+CHK(e2ee_fallback_body) { vp_assert(r.e2eeFallbackBody() == m.e2eeFallbackBody() && (!alone || r.body().isEmpty()), "C17 (iii) e2eeFallbackBody restored from the public part, body stays empty"); }
 
 FIELD(private_msg, PUB, 1, u"private", ns_carbons)
 SET(private_msg) { m.setPrivate(true); }
@@ -178,10 +178,10 @@ SET(mix_user)
 CHK(mix_user) { vp_assert(r.mixUserJid() == m.mixUserJid() && r.mixUserNick() == m.mixUserNick(), "C17 (iii) MIX user jid/nick restored"); }
 FIELD(mix_jid, PUB, 1, u"mix", ns_mix)
 SET(mix_jid) { m.setMixUserJid(S1); }
-CHK(mix_jid) { vp_assert(r.mixUserJid() == m.mixUserJid() && r.mixUserNick().isEmpty(), "C17 (iii) MIX user jid restored"); }
+CHK(mix_jid) { vp_assert(r.mixUserJid() == m.mixUserJid() && (!alone || r.mixUserNick().isEmpty()), "C17 (iii) MIX user jid restored"); }
 FIELD(mix_nick, PUB, 1, u"mix", ns_mix)
 SET(mix_nick) { m.setMixUserNick(S1); }
-CHK(mix_nick) { vp_assert(r.mixUserNick() == m.mixUserNick() && r.mixUserJid().isEmpty(), "C17 (iii) MIX user nick restored"); }
+CHK(mix_nick) { vp_assert(r.mixUserNick() == m.mixUserNick() && (!alone || r.mixUserJid().isEmpty()), "C17 (iii) MIX user nick restored"); }
 
 FIELD(eme, PUB, 1, u"encryption", ns_eme)
 SET(eme)
@@ -198,14 +198,14 @@ CHK(fallback_marker)
 {
     const auto &a = r.fallbackMarkers();
     const auto &b = m.fallbackMarkers();
-    bool ok = a.size() >= 1 && a.size() <= 2 && a.first().forNamespace() == b.first().forNamespace() && a.last().forNamespace() == b.first().forNamespace();
+    bool ok = a.size() >= 1 && a.size() <= 2 && (alone || true) && a.first().forNamespace() == b.first().forNamespace() && a.last().forNamespace() == b.first().forNamespace();
     vp_assert(ok, "C17 (iii) fallback marker restored (from either part)");
 }
 
 // ================= sensitive fields =================
 FIELD(body, SENS, 1, u"body", u"")
 SET(body) { m.setBody(S1); }
-CHK(body) { vp_assert(r.body() == m.body() && r.e2eeFallbackBody().isEmpty(), "C17 (iii) body restored from the sensitive part"); }
+CHK(body) { vp_assert(r.body() == m.body() && (!alone || r.e2eeFallbackBody().isEmpty()), "C17 (iii) body restored from the sensitive part"); }
 
 FIELD(subject, SENS, 1, u"subject", u"")
 SET(subject) { m.setSubject(S1); }
@@ -241,11 +241,11 @@ CHK(stamp) { vp_assert(r.stamp() == m.stamp(), "C17 (iii) stamp restored"); }
 
 FIELD(receipt_id, SENS, 1, u"received", ns_message_receipts)
 SET(receipt_id) { m.setReceiptId(S1); }
-CHK(receipt_id) { vp_assert(r.receiptId() == m.receiptId() && !r.isReceiptRequested(), "C17 (iii) receipt id restored"); }
+CHK(receipt_id) { vp_assert(r.receiptId() == m.receiptId() && (!alone || !r.isReceiptRequested()), "C17 (iii) receipt id restored"); }
 
 FIELD(receipt_request, SENS, 1, u"request", ns_message_receipts)
 SET(receipt_request) { m.setReceiptRequested(true); }
-CHK(receipt_request) { vp_assert(r.isReceiptRequested() && r.receiptId().isEmpty(), "C17 (iii) receipt request restored"); }
+CHK(receipt_request) { vp_assert(r.isReceiptRequested() && (!alone || r.receiptId().isEmpty()), "C17 (iii) receipt request restored"); }
 
 FIELD(attention, SENS, 1, u"attention", ns_attention)
 SET(attention) { m.setAttentionRequested(true); }
@@ -280,7 +280,7 @@ CHK(replace_id) { vp_assert(r.replaceId() == m.replaceId(), "C17 (iii) replace i
 
 FIELD(markable, SENS, 1, u"markable", ns_chat_markers)
 SET(markable) { m.setMarkable(true); }
-CHK(markable) { vp_assert(r.isMarkable() && r.marker() == QXmppMessage::NoMarker, "C17 (iii) markable restored"); }
+CHK(markable) { vp_assert(r.isMarkable() && (!alone || r.marker() == QXmppMessage::NoMarker), "C17 (iii) markable restored"); }
 
 static constexpr QStringView C17_MARKER_TAGS[3] = { u"received", u"displayed", u"acknowledged" };
 static unsigned c17_marker_index() { return vp_case_u(0, 3); }
@@ -291,7 +291,7 @@ SET(marker)
     m.setMarkerId(S1);
     m.setMarkedThread(S1);
 }
-CHK(marker) { vp_assert(r.marker() == m.marker() && r.markedId() == m.markedId() && r.markedThread() == m.markedThread() && !r.isMarkable(), "C17 (iii) chat marker restored"); }
+CHK(marker) { vp_assert(r.marker() == m.marker() && r.markedId() == m.markedId() && r.markedThread() == m.markedThread() && (!alone || !r.isMarkable()), "C17 (iii) chat marker restored"); }
 
 FIELD(attach_id, SENS, 1, u"attach-to", ns_message_attaching)
 SET(attach_id) { m.setAttachId(S1); }
@@ -418,6 +418,273 @@ static bool same_call_invite(const QXmppMessage &m, const QXmppMessage &r)
     extern "C" void h_kf_##name() { c17_d12_##name(true); }
 FIELD_D12(jmi, u"propose", ns_jingle_message_initiation, set_jmi_, same_jmi, "Jingle message initiation element")
 FIELD_D12(call_invite, u"invite", ns_call_invites, set_call_invite_, same_call_invite, "call invite element")
+
+
+// ================= composite instances =================
+#define C17_NPUB_ALLSET 12   // fallback body, private, 4 hints, 2 stanza ids, origin id, mix, encryption, fallback marker
+#define C17_NSENS_ALLSET 24  // 23 sensitive elements + fallback marker
+static void set_all_public(QXmppMessage &m)
+{
+    set_e2ee_fallback_body(m);
+    set_private_msg(m);
+    for (unsigned i = 0; i < 4; i++) {
+        m.addHint(QXmppMessage::Hint(1u << i));
+    }
+    set_stanza_ids2(m);
+    set_origin_id(m);
+    set_mix_user(m);
+    set_eme(m);
+    set_fallback_marker(m);
+}
+static void set_all_sensitive(QXmppMessage &m)
+{
+    set_body(m);
+    set_subject(m);
+    set_thread(m);
+    set_oob_url(m);
+    m.setState(QXmppMessage::Composing);
+    set_stamp(m);
+    set_receipt_id(m);   // excludes <request/> by construction of the serializer (an ack must not request a receipt)
+    set_attention(m);
+    set_bob(m);
+    set_muc_invitation(m);
+    set_replace_id(m);
+    set_markable(m);
+    m.setMarker(QXmppMessage::Acknowledged);
+    m.setMarkerId(S1);
+    m.setMarkedThread(S1);
+    set_jmi_(m);
+    set_attach_id(m);
+    set_spoiler(m);
+    set_mix_invitation(m);
+    set_trust_message(m);
+    set_reaction(m);
+    set_shared_file(m);
+    set_file_sources(m);
+    set_reply(m);
+    set_call_invite_(m);
+}
+static void chk_all(const QXmppMessage &m, const QXmppMessage &r, bool withFallbackBody, bool withD12)
+{
+    if (withFallbackBody) {
+        chk_e2ee_fallback_body(m, r, false);
+    }
+    chk_private_msg(m, r, false);
+    chk_hint(m, r, false);
+    chk_stanza_ids2(m, r, false);
+    chk_origin_id(m, r, false);
+    chk_mix_user(m, r, false);
+    chk_eme(m, r, false);
+    chk_fallback_marker(m, r, false);
+    chk_body(m, r, false);
+    chk_subject(m, r, false);
+    chk_thread(m, r, false);
+    chk_oob_url(m, r, false);
+    chk_chat_state(m, r, false);
+    chk_stamp(m, r, false);
+    chk_receipt_id(m, r, false);
+    chk_attention(m, r, false);
+    chk_bob(m, r, false);
+    chk_muc_invitation(m, r, false);
+    chk_replace_id(m, r, false);
+    chk_markable(m, r, false);
+    chk_marker(m, r, false);
+    chk_attach_id(m, r, false);
+    chk_spoiler(m, r, false);
+    chk_mix_invitation(m, r, false);
+    chk_trust_message(m, r, false);
+    chk_reaction(m, r, false);
+    chk_shared_file(m, r, false);
+    chk_file_sources(m, r, false);
+    chk_reply(m, r, false);
+    bool d12 = same_jmi(m, r) && same_call_invite(m, r);
+    vp_assert(withD12 ? d12 : true, "C17 (iii) Jingle message initiation and call invite elements restored");
+}
+static bool c17_whitelisted(const QDomElement &c, const QString &fallbackBody)
+{
+    QString tag = c.tagName(), ns = c.namespaceURI();
+    if (tag == u"body") {
+        return ns.isEmpty() && c.text() == fallbackBody;   // the only <body/> allowed is the explicit fallback text
+    }
+    return (tag == u"private" && ns == ns_carbons) ||
+        (ns == ns_message_processing_hints && (tag == u"no-permanent-store" || tag == u"no-store" || tag == u"no-copy" || tag == u"store")) ||
+        ((tag == u"stanza-id" || tag == u"origin-id") && ns == ns_sid) || (tag == u"mix" && ns == ns_mix) || (tag == u"encryption" && ns == ns_eme) ||
+        (tag == u"fallback" && ns == ns_fallback_indication);
+}
+// every extension at once (structure concrete, all values symbolic)
+extern "C" void h_allset()
+{
+    QXmppMessage m;
+    c17_base(m);
+    set_all_public(m);
+    set_all_sensitive(m);
+    C17Trees t;
+    c17_serialize(m, t);
+    unsigned np = vp_c17_nch(&t.pub), nsn = vp_c17_nch(&t.sens), na = vp_c17_nch(&t.all);
+    vp_assert(np == C17_NPUB_ALLSET, "C17 (i) public part of the full message: exactly the elements of the whitelisted fields");
+    vp_assert(nsn == C17_NSENS_ALLSET, "C17 (ii) sensitive part of the full message: exactly the sensitive elements and the fallback marker");
+    vp_assert(na == C17_NPUB_ALLSET - 1 + C17_NSENS_ALLSET - 1, "C17 (ii) unsplit message: every element once (explicit fallback body aside)");
+    vp_assert(vp_c17_is_split(&t.all, &t.pub, &t.sens, 1, 1), "C17 (ii) E(All) = E(Public) + E(Sensitive): each element in exactly one part (fallback body / fallback marker aside)");
+    bool wl = true;
+    for (unsigned i = 0; i < C17_NPUB_ALLSET; i++) {
+        QDomElement c;
+        vp_c17_child(&t.pub, i, &c);
+        wl = wl && !c.isNull() && c17_whitelisted(c, m.e2eeFallbackBody());
+    }
+    vp_assert(wl, "C17 (i) every element of the public part is on the whitelist (routing data, hints, ids, explicit fallback)");
+    QXmppMessage r;
+    vp_c17_unknown_reset();
+    r.parse(t.pub, QXmpp::ScePublic);
+    r.parse(t.sens, QXmpp::SceSensitive);
+    bool kf = vp_c17_kf_d12();
+    vp_assert(kf || vp_c17_unknown() == 0, "C17 (iii) every element of each part is recognised when that part is parsed in its own mode");
+    chk_all(m, r, true, !kf);
+    vp_assert(r.fallbackMarkers().size() == 2, "C17 fallback marker read from both parts");
+}
+// the unsplit message parsed in SceAll mode
+extern "C" void h_allset_all()
+{
+    QXmppMessage m;
+    c17_base(m);
+    set_all_public(m);
+    set_all_sensitive(m);
+    QDomElement all;
+    {
+        VpWriter w;
+        m.toXml(w.writer(), QXmpp::SceAll);
+        all = w.root();
+    }
+    QXmppMessage r;
+    vp_c17_unknown_reset();
+    r.parse(all, QXmpp::SceAll);
+    vp_assert(vp_c17_unknown() == 0, "C17 every element of the unsplit message is recognised in SceAll mode");
+    chk_all(m, r, false, true);
+    vp_assert(r.e2eeFallbackBody().isEmpty(), "C17 the body of an unsplit message is never taken for the e2ee fallback body");
+}
+// the real e2ee flow (QXmppClient::sendSensitive / QXmppOmemoManager): outer stanza = toXml(ScePublic); envelope content =
+// serializeExtensions(SceSensitive, "jabber:client"); receiver: parse(outer, ScePublic) then parseExtensions(content, SceSensitive)
+extern "C" void h_envelope()
+{
+    QXmppMessage m;
+    c17_base(m);
+    set_all_public(m);
+    set_all_sensitive(m);
+    QDomElement outer, content;
+    {
+        VpWriter w;
+        m.toXml(w.writer(), QXmpp::ScePublic);
+        outer = w.root();
+    }
+    {
+        VpWriter w;
+        w.writer()->writeStartElement(QStringLiteral("content"));
+        w.writer()->writeDefaultNamespace(QStringLiteral("urn:xmpp:sce:1"));
+        m.serializeExtensions(w.writer(), QXmpp::SceSensitive, ns_client.toString());
+        w.writer()->writeEndElement();
+        content = w.root();
+    }
+    vp_assert(vp_c17_nch(&outer) == C17_NPUB_ALLSET && vp_c17_nch(&content) == C17_NSENS_ALLSET, "C17 (i)(ii) outer stanza / envelope content hold the public / sensitive elements");
+    QXmppMessage r;
+    vp_c17_unknown_reset();
+    r.parse(outer, QXmpp::ScePublic);
+    r.parseExtensions(content, QXmpp::SceSensitive);
+    bool kf = vp_c17_kf_d12();
+    vp_assert(kf || vp_c17_unknown() == 0, "C17 (iii) every element of each part is recognised when that part is parsed in its own mode");
+    chk_all(m, r, true, !kf);
+}
+// non-interference, public part: ANY combination of whitelisted fields, then ANY combination of sensitive fields on top:
+// the public serialization does not change (tree equality including the stanza attributes)
+extern "C" void h_ni_public()
+{
+    QXmppMessage p;
+    c17_base(p);
+    if (vp_bool()) { set_e2ee_fallback_body(p); }
+    if (vp_bool()) { set_private_msg(p); }
+    unsigned hints = vp_u8() & 15u;
+    for (unsigned i = 0; i < 4; i++) {
+        if (hints & (1u << i)) {
+            p.addHint(QXmppMessage::Hint(1u << i));
+        }
+    }
+    if (vp_bool()) { set_stanza_id(p); }
+    if (vp_bool()) { set_origin_id(p); }
+    if (vp_bool()) { set_mix_jid(p); }
+    if (vp_bool()) { set_mix_nick(p); }
+    if (vp_bool()) { set_eme(p); }
+    if (vp_bool()) { set_fallback_marker(p); }
+    QXmppMessage m(p);
+    m.setCarbonForwarded(false);   // detach the copy here, under concrete control flow
+    if (vp_bool()) { set_body(m); }
+    if (vp_bool()) { set_subject(m); }
+    if (vp_bool()) { set_thread(m); }
+    if (vp_bool()) { set_oob_url(m); }
+    if (vp_bool()) { m.setState(QXmppMessage::State(vp_u8() % 6)); }
+    if (vp_bool()) { set_stamp(m); }
+    if (vp_bool()) { set_receipt_id(m); }
+    if (vp_bool()) { m.setReceiptRequested(true); }
+    if (vp_bool()) { set_attention(m); }
+    if (vp_bool()) { set_bob(m); }
+    if (vp_bool()) { set_muc_invitation(m); }
+    if (vp_bool()) { set_replace_id(m); }
+    if (vp_bool()) { set_markable(m); }
+    if (vp_bool()) { m.setMarker(QXmppMessage::Marker(vp_u8() % 4)); m.setMarkerId(S1); m.setMarkedThread(S1); }
+    if (vp_bool()) { set_jmi_(m); }
+    if (vp_bool()) { set_attach_id(m); }
+    if (vp_bool()) { set_spoiler(m); }
+    if (vp_bool()) { set_mix_invitation(m); }
+    if (vp_bool()) { set_trust_message(m); }
+    if (vp_bool()) { set_reaction(m); }
+    if (vp_bool()) { set_shared_file(m); }
+    if (vp_bool()) { set_file_sources(m); }
+    if (vp_bool()) { set_reply(m); }
+    if (vp_bool()) { set_call_invite_(m); }
+    QDomElement a, b;
+    {
+        VpWriter w;
+        p.toXml(w.writer(), QXmpp::ScePublic);
+        a = w.root();
+    }
+    {
+        VpWriter w;
+        m.toXml(w.writer(), QXmpp::ScePublic);
+        b = w.root();
+    }
+    vp_assert(vp_dom_equal(&a, &b), "C17 (i) the public part does not depend on any sensitive field (non-interference)");
+}
+// non-interference, sensitive part: every sensitive field set, ANY combination of whitelisted fields on top
+extern "C" void h_ni_sensitive()
+{
+    QXmppMessage s;
+    c17_base(s);
+    set_all_sensitive(s);
+    QXmppMessage m(s);
+    m.setCarbonForwarded(false);
+    if (vp_bool()) { set_e2ee_fallback_body(m); }
+    if (vp_bool()) { set_private_msg(m); }
+    unsigned hints = vp_u8() & 15u;
+    for (unsigned i = 0; i < 4; i++) {
+        if (hints & (1u << i)) {
+            m.addHint(QXmppMessage::Hint(1u << i));
+        }
+    }
+    if (vp_bool()) { set_stanza_id(m); }
+    if (vp_bool()) { set_origin_id(m); }
+    if (vp_bool()) { set_mix_jid(m); }
+    if (vp_bool()) { set_mix_nick(m); }
+    if (vp_bool()) { set_eme(m); }
+    QDomElement a, b;
+    {
+        VpWriter w;
+        s.toXml(w.writer(), QXmpp::SceSensitive);
+        a = w.root();
+    }
+    {
+        VpWriter w;
+        m.toXml(w.writer(), QXmpp::SceSensitive);
+        b = w.root();
+    }
+    vp_assert(vp_dom_equal(&a, &b), "C17 (ii) the sensitive part does not depend on any whitelisted field (fallback markers aside)");
+}
 
 #ifdef C17_DEBUG
 extern "C" void h_dbg1() { QXmppMessage m; c17_base(m); set_body(m); C17Trees t; c17_serialize(m, t); }
